@@ -670,6 +670,7 @@ def r3(k: Kit) -> None:
         (CONN + '_process_service_request', 'self._recv_encryption', True),
         (CONN + '_process_service_accept', 'self._recv_encryption', True),
         (CONN + '_process_kexinit', 'self._kex', False),
+        (CONN + '_process_kexinit', 'self._next_recv_encryption', False),
         (CONN + '_process_userauth_success', 'self._auth', True),
         (CONN + '_process_userauth_failure', 'self._auth', True),
     ]
